@@ -358,7 +358,9 @@ def gen_read(rng, tree, systems, hot=None, pool=None):
     # one tree showed at an instant must not decide what another tree shows there
     date = pick(rng, pool) if pool and chance(rng, 0.7) else PW.rand_date(rng, 2005, 2021)
     if chance(rng, 0.2):
-        return ["sread", sysid, pick(rng, ["a", "b"]), date]
+        # ... after which the reader may work on a copy of what it read (a reader's
+        # own arithmetic: nobody else's reads may notice)
+        return ["sread", sysid, pick(rng, ["a", "b"]), date, pick(rng, [None, None, "copy_rates", "copy_bracket", "copy_thresholds", "new_rates"])]
     kind = weighted(rng, [("str", 3), ("enum", 2), ("enumarray", 2), ("nested", 2), ("date", 4)])
     route = pick(rng, ["a", "a", "c", "d"])
     if kind == "date":
@@ -682,7 +684,8 @@ def run_c07(scn) -> Result:
                     res.violate("C07.agree", step, op=do, route=route, tree_value=want, got=canon(got), writes_before=writes)
             elif kind == "sread":
                 # the scale at a date, against its brackets' own dated leaves
-                _, sid, route, date = do
+                _, sid, route, date = do[:4]
+                work = do[4] if len(do) > 4 else None
                 if sid not in systems:
                     continue
                 system = systems[sid]
@@ -708,6 +711,25 @@ def run_c07(scn) -> Result:
                 H.add(op["actor"], "sread", do[1:], [want, got])
                 if got != want:
                     res.violate("C07.agree", step, op=do, route=route, what="scale at the date differs from its brackets' leaves", expected=want, got=got, writes_before=writes)
+                elif work and at.thresholds:
+                    res.count("probe:reader_works_on_a_copy_of_the_scale")
+                    try:
+                        if work == "new_rates":
+                            at.multiply_rates(2.0, inplace=False, new_name="doubled")
+                        else:
+                            mine = at.copy()
+                            if work == "copy_rates":
+                                mine.multiply_rates(2.0, inplace=True)
+                            elif work == "copy_bracket":
+                                mine.add_bracket(mine.thresholds[0], 0.25)
+                            else:
+                                mine.multiply_thresholds(3.0, inplace=True)
+                    except Exception as e:  # noqa: BLE001
+                        res.violate("C07.agree", step, op=do, route=route, what="working on a copy of the scale raised", error=type(e).__name__, detail=str(e)[:160])
+                        break
+                    again = sorted((float(t), float(r)) for t, r in zip(at.thresholds, at.rates))
+                    if again != want:
+                        res.violate("C07.agree", step, op=do, route=route, what="the scale that was read changed when the reader worked on a copy of it", expected=want, got=again, work=work)
             elif kind == "vread":
                 _, sid, route, vkind, keys, date = do
                 if sid not in systems:
